@@ -15,19 +15,19 @@ LEVEL = 'exploration'
 RULE = ("seeded templates (flat and hierarchical, shared operator / node template objects, per-node overrides, edges defined at "
         "several levels) x random sequences (length 2-7) over the operations the property lists: get_run_func / "
         "get_jacobian_func / run with in_place=False, get_nodes, get_edges, get_edge, collect_edges, get_node_template, "
-        "__getitem__, to_yaml, deepcopy, update_template (not in place) of the circuit, of its operator templates (list / replace / variables forms) and of its node templates (followed by update_var on the derived template); after every operation the structural fingerprint (M-tpl) "
+        "__getitem__, to_yaml, deepcopy, update_template (not in place) of the circuit (with added edges, or unchanged and followed by update_var on an edge and a node variable of the derived circuit), of its operator templates (list / replace / variables forms) and of its node templates (followed by update_var on the derived template); after every operation the structural fingerprint (M-tpl) "
         "of the template, of all operator / node templates it is built from and of a sibling circuit sharing those objects "
         "must be unchanged; at the end the vector field must still equal the reference model and two run(in_place=False) calls "
         "must return identical frames equal to the reference trajectory; non-trivial = sequence contains >= 1 compile and >= 1 "
         "getter/dump; distinct = distinct (spec, sequence) hash")
 DECIDING = ['fingerprint_checks', 'final_vf_checks', 'repeat_run_checks', 'op_get_edges', 'op_to_yaml', 'op_get_run_func', 'op_run',
-            'op_deepcopy', 'op_update_template', 'op_collect_edges', 'op_get_jacobian_func', 'op_op_update_template', 'op_nt_update_template', 'input_runs_compared']
+            'op_deepcopy', 'op_update_template', 'op_collect_edges', 'op_get_jacobian_func', 'op_op_update_template', 'op_nt_update_template', 'input_runs_compared', 'derived_circuit_edge_modified']
 ASSUMPTIONS = ['the CircuitTemplate.state carry-over (final state of the last simulation) is documented statefulness and not part '
                'of the fingerprint; behaviour is compared at given states, not through the remembered initial state']
 CASE_TIMEOUT = 120
 FOCUS = ['compile_mixed_vectorize', 'to_yaml_with_variations']
 OPS = ['get_run_func', 'get_jacobian_func', 'run', 'get_nodes', 'get_edges', 'get_edge', 'collect_edges', 'get_node_template',
-       'getitem', 'to_yaml', 'deepcopy', 'update_template', 'op_update_template', 'nt_update_template', 'run_input', 'run_input']
+       'getitem', 'to_yaml', 'deepcopy', 'update_template', 'op_update_template', 'nt_update_template', 'run_input', 'run_input', 'derive_circuit', 'derive_circuit']
 
 
 def plan(tier, seed):
@@ -205,6 +205,18 @@ def run_case(case, ctx):
                     del new
                 elif op == 'update_template':
                     new = tmpl.update_template(edges=[(e[0], e[1], None, dict(e[3])) for e in spec['circ'].get('edges', [])[:1]])
+                    del new
+                elif op == 'derive_circuit':
+                    # derive a circuit without any change (not in place) and modify an edge / a node variable of the DERIVED one
+                    new = tmpl.update_template(name='derived_c')
+                    es_ = spec['circ'].get('edges', [])
+                    if es_:
+                        e = rnd.choice(es_)
+                        new.update_var(edge_vars=[(e[0], e[1], {'weight': 7.75})])
+                        mech['derived_circuit_edge_modified'] = mech.get('derived_circuit_edge_modified', 0) + 1
+                    consts_ = [k_ for k_ in ref.param_keys if ref.kind[k_] == 'const']
+                    if consts_:
+                        new.update_var(node_vars={'/'.join(consts_[0]): 6.66})
                     del new
             except Exception as e:
                 import traceback
